@@ -11,6 +11,7 @@ import (
 	"strings"
 	"testing"
 
+	"github.com/evolbioinfo/goalign/align"
 	"pgregory.net/rapid"
 	"verif/internal/cli"
 	"verif/internal/distrun"
@@ -45,6 +46,21 @@ type estCase struct {
 	// and weights; nil = fresh model
 	Prev    []string         `json:"prev"`
 	PrevOpt *refdist.Options `json:"prev_opt"`
+	// History: the judged matrix is not the first thing computed on the alignment OBJECT (callers keep
+	// one object and edit it: mutate, mask, replace, shuffle, reverse complement, then compute again)
+	History *history `json:"history"`
+}
+
+// history of the alignment object before the judged call
+type history struct {
+	// Kind: "set-char", "replace-char": the object first holds Other (same dimensions), its matrix is
+	// computed, then every differing cell is edited in place (SetSequenceChar / ReplaceChar) to reach
+	// Rows; "reverse-complement": the object first holds the reverse complement of Rows, its matrix is
+	// computed, then ReverseComplement() in place; "a-b-a": the matrix of the object (Rows) is computed,
+	// then the one of another object holding Other (same dimensions), then the object's again
+	Kind      string   `json:"kind"`
+	Other     []string `json:"other"`
+	SameModel bool     `json:"same_model"` // one model object for all the calls, or a fresh one per call
 }
 
 func genEst(t *rapid.T) estCase {
@@ -65,6 +81,14 @@ func genEst(t *rapid.T) estCase {
 		po.Alpha = refdist.GenAlpha(t)
 		po.Weights = refdist.GenWeights(t, len(c.Prev[0]))
 		c.PrevOpt = &po
+	}
+	if rapid.IntRange(0, 4).Draw(t, "history") == 3 {
+		h := history{Kind: rapid.SampledFrom([]string{"set-char", "replace-char", "reverse-complement", "a-b-a"}).Draw(t, "history-kind")}
+		if h.Kind != "reverse-complement" {
+			h.Other = refdist.Perturb(t, c.Rows, c.Tier)
+		}
+		h.SameModel = rapid.Bool().Draw(t, "history-same-model")
+		c.History = &h
 	}
 	return c
 }
@@ -139,6 +163,71 @@ func checkEst(c estCase) (o pbt.Outcome, err error) {
 			return o, fmt.Errorf("previous alignment: %v", e)
 		}
 		o.Class("model-object-reused")
+	}
+	if h := c.History; h != nil {
+		// the matrix of whatever content is judged against the reference for THAT content
+		step := func(what string, obj align.Alignment, rows []string) error {
+			m := model
+			if !h.SameModel {
+				if m, e = distrun.Model(c.Opt, c.ViaName); e != nil {
+					return e
+				}
+			}
+			mat, e := distrun.MatrixWith(obj, c.Opt, m, c.Threads)
+			if e != nil {
+				return fmt.Errorf("history (%s), %s: DistMatrix fails: %v", h.Kind, what, e)
+			}
+			if _, _, e := refdist.JudgeAny(mat, rows, c.Opt, refdist.Readings(rows, c.Opt), judgeOpt(refdist.LibTol)); e != nil {
+				return fmt.Errorf("history (%s), %s: %v", h.Kind, what, e)
+			}
+			return nil
+		}
+		switch h.Kind {
+		case "a-b-a":
+			if e := step("first computation on the object", al, c.Rows); e != nil {
+				return o, e
+			}
+			if e := step("another object of the same dimensions", gen.MustBuild(distrun.Ali(h.Other)), h.Other); e != nil {
+				return o, e
+			}
+		default:
+			start := h.Other
+			if h.Kind == "reverse-complement" {
+				start = refdist.RevComp(c.Rows)
+			}
+			al = gen.MustBuild(distrun.Ali(start))
+			if e := step("content before the edit", al, start); e != nil {
+				return o, e
+			}
+			switch h.Kind {
+			case "reverse-complement":
+				if e := al.ReverseComplement(); e != nil {
+					return o, fmt.Errorf("ReverseComplement: %v", e)
+				}
+			default:
+				for i := range c.Rows {
+					for j := 0; j < len(c.Rows[i]); j++ {
+						if start[i][j] == c.Rows[i][j] {
+							continue
+						}
+						var e error
+						if h.Kind == "set-char" {
+							e = al.SetSequenceChar(i, j, c.Rows[i][j])
+						} else {
+							e = al.ReplaceChar(ali.Rows[i].Name, j, c.Rows[i][j])
+						}
+						if e != nil {
+							return o, fmt.Errorf("harness: in-place edit (%s) of cell %d,%d fails: %v", h.Kind, i, j, e)
+						}
+					}
+				}
+			}
+			if !gen.SameRows(gen.Snapshot(al), ali.Rows) {
+				// a defect of the editing call is not the business of this property
+				return o, fmt.Errorf("harness: after the in-place edit (%s) the object holds %s", h.Kind, gen.Show(gen.Snapshot(al)))
+			}
+		}
+		o.Class("history:%s", h.Kind)
 	}
 	got, e := distrun.MatrixWith(al, c.Opt, model, c.Threads)
 	if e != nil {
